@@ -559,11 +559,42 @@ func runPlan(res *core.Result, r *rand.Rand, lp *linkPair, dir wire.Dir, p plan,
 			res.Case(fmt.Sprintf("%s|%s|closed", p.field, p.kind), true)
 			return false
 		}
+		var lost []*sentFrame
 		for _, sf := range sent {
 			if delivered[sf.id] == 0 && !touched[sf.id] {
-				res.Violate("intact-frame-lost:"+p.kind, fmt.Sprintf("%s %s: intact frame %d (%d bytes) was not delivered although the fault touched only frames %v", p, dir, sf.id, len(sf.bytes), keys(touched)), wit)
+				lost = append(lost, sf)
+			}
+		}
+		if len(lost) > 0 {
+			// "byte-identical or not at all ... intact later frames keep arriving or the link is closed": a frame that
+			// got lost (a tree may shed load at a full queue) is within the statement as long as the link goes on
+			// delivering. Bounded-progress form: ten more frames, sent one at a time (each waits until the wire is
+			// idle again, so nothing can pile up anywhere), must all arrive - or the link must be closed.
+			arrived := 0
+			for j := 0; j < 10; j++ {
+				if !send(n+tail+j, 300+r.IntN(700)) || !waitSent(n+tail+j+1) {
+					break
+				}
+				wire.WaitIdle(lp.w, dir, 30*time.Second)
+				want := sent[len(sent)-1]
+				select {
+				case f := <-to.Upstream:
+					d, _ := f.FrameDataWithMargins(0, 0)
+					if bytes.Equal(d, want.bytes) {
+						arrived++
+					}
+					f.ReturnToPool()
+				case <-time.After(1500 * time.Millisecond):
+				}
+			}
+			if arrived < 10 && !(link.IsClosing() || len(to.Inst.PeeringV.GetLinks()) == 0) {
+				sf := lost[0]
+				res.Violate("intact-frame-lost:"+p.kind, fmt.Sprintf("%s %s: intact frame %d (%d bytes) was not delivered although the fault touched only frames %v, and of 10 further frames sent one at a time only %d arrived while the link stayed open", p, dir, sf.id, len(sf.bytes), keys(touched), arrived), wit)
 				return false
 			}
+			res.Count("intact_frames_lost_while_the_link_kept_delivering", int64(len(lost)))
+			res.Case(fmt.Sprintf("%s|%s|lost-but-live", p.field, p.kind), true)
+			return false // the pair is not used again
 		}
 	} else if !closed {
 		// there must be a resync point: every frame from some index on delivered
